@@ -269,6 +269,31 @@ fn d17() -> R {
     Ok(())
 }
 
+fn d19() -> R {
+    let mut a = BinArchive::new(Endian::Little);
+    a.allocate_at_end(4);
+    {
+        let mut w = BinArchiveWriter::new(&mut a, 2);
+        if w.write_bytes(&[0xAA, 0xBB, 0xCC]).is_ok() {
+            return Err("write beyond the end accepted".into());
+        }
+        if w.tell() != 2 {
+            return Err(format!("failed write_bytes moved the cursor to {}", w.tell()));
+        }
+    }
+    if a.read_bytes(0, 4).unwrap() != [0, 0, 0, 0] {
+        return Err(format!("failed write_bytes changed data to {:?}", a.read_bytes(0, 4).unwrap()));
+    }
+    let mut r = BinArchiveReader::new(&a, 2);
+    if r.read_bytes(3).is_ok() {
+        return Err("read beyond the end accepted".into());
+    }
+    if r.tell() != 2 {
+        return Err(format!("failed read_bytes moved the cursor to {}", r.tell()));
+    }
+    Ok(())
+}
+
 pub fn all() -> Vec<(&'static str, &'static str, R)> {
     let list: Vec<(&'static str, &'static str, fn() -> R)> = vec![
         ("D1", "C01", d1),
@@ -288,6 +313,7 @@ pub fn all() -> Vec<(&'static str, &'static str, R)> {
         ("D15", "C06", d15),
         ("D16", "C06", d16),
         ("D17", "C17", d17),
+        ("D19", "C04", d19),
     ];
     list.into_iter().map(|(d, p, f)| (d, p, guard(f))).collect()
 }
